@@ -81,6 +81,10 @@ class World:
         self.stdout = ""
         self.path = None
         if cfg["storage"] == "csv":
+            from .ioseam import SEAM
+
+            if SEAM.installed:
+                SEAM.quiesce()
             common.wipe_dir(common.db_dir())
             common.wipe_dir(common.tmp_dir())
             self.path = os.path.join(common.db_dir(), "db.csv")
